@@ -716,7 +716,12 @@ def _ceval(fn, e, is_input, value, depth=0):
         b = _ceval(fn, e["c"][1], is_input, value, depth + 1)
         table = {"==": lambda: int(a == b), "!=": lambda: int(a != b), "<": lambda: int(a < b), "<=": lambda: int(a <= b),
                  ">": lambda: int(a > b), ">=": lambda: int(a >= b), "&": lambda: a & b, "|": lambda: a | b,
-                 "^": lambda: a ^ b, "+": lambda: a + b, "-": lambda: a - b, "<<": lambda: a << b, ">>": lambda: a >> b}
+                 "^": lambda: a ^ b, "+": lambda: a + b, "-": lambda: a - b, "<<": lambda: a << b, ">>": lambda: a >> b,
+                 "*": lambda: a * b}
+        if op in ("/", "%") and b:
+            # C semantics: truncation towards zero
+            q_ = abs(a) // abs(b) * (1 if (a >= 0) == (b >= 0) else -1)
+            return q_ if op == "/" else a - q_ * b
         if op in table:
             return table[op]()
     raise _NoValue("expression `%s`" % show(e)[:40])
